@@ -15,7 +15,7 @@ std::unique_ptr<NodeResult> RepeatUntilNode::evaluate(PSC::Context &ctx) {
         } catch (BreakErrSignal&) {
             break;
         } catch (ContinueErrSignal&) {
-            continue;
+            // fall through to the UNTIL test
         }
 
         auto conditionRes = node.evaluate(ctx);
